@@ -72,6 +72,11 @@ pub struct Case {
     /// one of them must see exactly what the others see
     #[serde(default)]
     pub crowd: u16,
+    /// one more subscriber whose channel is subscribed to this document *and* to the other document of the same actor (one
+    /// channel for several documents is what the live engine does): whatever happens to the other document - it is closed
+    /// and opened again by some steps - this subscriber must keep seeing this document's events
+    #[serde(default)]
+    pub shared_channel: bool,
 }
 
 fn key(k: u8) -> Vec<u8> {
@@ -170,8 +175,8 @@ impl Prop for C12 {
             1 => (vec(small(), 2..=5), any::<bool>()).prop_map(|(v, h)| Step::SlowMessage(v, h)),
         ];
         let crowd = prop_oneof![300 => Just(0u16), 1 => prop::sample::select(vec![31u16, 32, 33, 63, 64, 65, 127, 128, 129, 255, 256, 257])];
-        let plain = (vec(step, 1..=max), prop::bool::weighted(0.3), crowd).prop_map(|(steps, start_readonly, crowd)| Case { steps, start_readonly, live: None, crowd });
-        let live = crate::props::c04::live_case().prop_map(|l| Case { steps: vec![], start_readonly: false, live: Some(l), crowd: 0 });
+        let plain = (vec(step, 1..=max), prop::bool::weighted(0.3), crowd, prop::bool::weighted(0.25)).prop_map(|(steps, start_readonly, crowd, shared_channel)| Case { steps, start_readonly, live: None, crowd, shared_channel });
+        let live = crate::props::c04::live_case().prop_map(|l| Case { steps: vec![], start_readonly: false, live: Some(l), crowd: 0, shared_channel: false });
         if std::env::var("DV_LIVE_ONLY").is_ok() {
             return live.boxed();
         }
@@ -284,6 +289,15 @@ fn run(ctx: &mut Ctx, c: &Case, o: &mut Outcome) -> R<()> {
         }
         if c.crowd > 0 {
             o.class("crowd-of-subscribers(31..257)");
+        }
+        let mut shared_slot = None;
+        if c.shared_channel {
+            let (tx, rx) = async_channel::bounded(4096);
+            es(h.subscribe(ns, tx.clone()).await)?;
+            es(h.subscribe(other, tx.clone()).await)?;
+            shared_slot = Some(slots.len());
+            slots.push(Slot::Active(tx, rx));
+            o.class("a-subscriber-whose-channel-also-serves-the-other-document");
         }
         let mut model = Model::default();
         let mut policy = PSpec { nothing_except: false, filters: vec![] };
@@ -629,7 +643,14 @@ fn run(ctx: &mut Ctx, c: &Case, o: &mut Outcome) -> R<()> {
                 match sl {
                     Slot::Empty => {}
                     Slot::Active(_, rx) => {
-                        let evs: Vec<Ev> = act::drain(rx).iter().map(|e| to_ev(e, ns)).collect::<R<_>>()?;
+                        let mut raw = act::drain(rx);
+                        if Some(n) == shared_slot {
+                            // the shared channel also carries the other document's events
+                            raw.retain(|e| match e {
+                                Event::LocalInsert { namespace, .. } | Event::RemoteInsert { namespace, .. } => *namespace == ns,
+                            });
+                        }
+                        let evs: Vec<Ev> = raw.iter().map(|e| to_ev(e, ns)).collect::<R<_>>()?;
                         seen.push((n, evs));
                     }
                     Slot::Left(rx) => {
